@@ -318,7 +318,27 @@ class ScriptedContext:
         self.seq_out = 0
         self.seq_in = 0
 
-    # -- pyspnego context API used by dpapi_ng --
+    # -- pyspnego context API (the part dpapi_ng uses, plus the read-only attributes a client may consult) --
+    negotiated_protocol = "ntlm"
+    usage = "initiate"
+    protocol = "ntlm"
+    client_principal = None
+    requires_mech_list_mic = False
+
+    @property
+    def context_attr(self):
+        import spnego
+
+        return spnego.ContextReq.integrity | spnego.ContextReq.confidentiality | spnego.ContextReq.sequence_detect | spnego.ContextReq.replay_detect | spnego.ContextReq.dce_style
+
+    @property
+    def context_req(self):
+        return self.context_attr
+
+    @property
+    def session_key(self) -> bytes:
+        return self.key
+
     @property
     def complete(self) -> bool:
         return self.steps >= self.complete_after
